@@ -7,6 +7,8 @@ Channels: (a) CLI, `.8byte <expr>` -> image bytes;  (b) direct calls of parse_ex
 import itertools
 import json
 
+import re
+
 from vf import core, isa
 from vf.model import expr as E
 
@@ -121,6 +123,14 @@ def nontrivial(ast, toks):
     return False
 
 
+def behind_a_minus(ast, parent_level=None):
+    """AST of the text "0 - <text of ast>": the minus takes the first term only (the + - level and the levels below it are
+    left-associative); a sub-expression the renderer parenthesises, or one of the * / % level, is taken as a whole"""
+    if ast[0] == 'bin' and E.LEVEL[ast[1]] <= 2 and (parent_level is None or E.LEVEL[ast[1]] >= parent_level):
+        return ['bin', ast[1], behind_a_minus(ast[2], E.LEVEL[ast[1]]), ast[3]]
+    return ['bin', '-', ['num', 0, '0'], ast]
+
+
 def make_item(ast, rng=None, buckets=()):
     toks = E.tokens(ast)
     text = E.join_tokens(toks, rng)
@@ -130,7 +140,13 @@ def make_item(ast, rng=None, buckets=()):
     except E.DontCare as e:
         exp = None
         dc = str(e)
-    return {'text': text, 'wf': True, 'exp': exp, 'dc': dc, 'shape': shape(toks), 'nt': nontrivial(ast, toks),
+    try:
+        neg_exp = E.result(behind_a_minus(ast), LABELS)
+        if E.tokens(behind_a_minus(ast))[2:] != toks:
+            neg_exp = None          # (the rendering of "0 - ..." is not "0 -" + this text: leave the case out)
+    except (E.DontCare, KeyError):
+        neg_exp = None
+    return {'text': text, 'wf': True, 'exp': exp, 'neg_exp': neg_exp, 'dc': dc, 'shape': shape(toks), 'nt': nontrivial(ast, toks),
             'feat': sorted(features(ast)), 'buckets': list(buckets)}
 
 
@@ -334,7 +350,7 @@ class C07(core.Check):
         'neg:before-parenthesis', 'neg:doubled', 'lit:dec', 'lit:dollar', 'lit:0x', 'lit:H', 'lit:pct', 'lit:b',
         'lit:char', 'lit:leading-zeros', 'byte:negative', 'byte:beyond-length', 'trunc:positive', 'trunc:negative', 'real-quotient',
         'malformed:drop-operand', 'malformed:double-operator', 'malformed:unbalance', 'malformed:juxtapose',
-        'malformed:trailing-operator', 'malformed:unclosed-func', 'malformed:foreign-char', 'channel:cli',
+        'malformed:trailing-operator', 'malformed:unclosed-func', 'malformed:foreign-char', 'channel:cli', 'channel:cli-offset-behind-a-minus', 'channel:cli-offset-behind-a-plus',
         'channel:cli-malformed', 'channel:direct', 'channel:cli-operand']}
 
     def __init__(self):
@@ -350,6 +366,10 @@ class C07(core.Check):
         obj = isa.base_isa(address_size=16, endian=endian)
         # an instruction whose single operand is a 64-bit numeric argument: the same expressions in operand position
         obj['operand_sets']['imm64'] = {'operand_values': {'i64': {'type': 'numeric', 'argument': {'size': 64, 'byte_align': True}}}}
+        obj['general']['registers'] = ['sp']
+        obj['operand_sets']['off64'] = {'operand_values': {'o64': {'type': 'indirect_register', 'register': 'sp',
+                                                                   'offset': {'size': 64, 'byte_align': True}}}}
+        obj['instructions']['w6o'] = {'bytecode': {'value': 0x66, 'size': 8}, 'operands': {'count': 1, 'operand_sets': {'list': ['off64']}}}
         obj['instructions']['w64'] = {'bytecode': {'value': 0x64, 'size': 8},
                                       'operands': {'count': 1, 'operand_sets': {'list': ['imm64']}}}
         fn, text = isa.render_isa(obj, fmt)
@@ -369,6 +389,20 @@ class C07(core.Check):
                 cn = f'c07k_{len(line_of)}'
                 lines.append(f'{cn} = {t}' if rng.random() < 0.6 else f'{cn} EQU {t}')
                 lines.append(f'.8byte {cn}')
+            elif not as_operand and len(line_of) % 6 == 1 and re.fullmatch(r"[\s\w.+\-*/&|^<>()$%]+", t) and not t.lstrip().startswith(('-', '+')) \
+                    and it.get('dc') is None:
+                # as the offset of an indirect register: [sp + e] is e, [sp - e] is 0 - e (the sign in front belongs to the first
+                # term only, the + - level stays left-associative)
+                if len(line_of) % 12 != 7:
+                    neg = it.get('neg_exp')
+                    if neg is not None:
+                        lines.append(f'w6o [sp - {t}]')
+                        it = dict(it, exp=neg, buckets=list(it.get('buckets', ())) + ['channel:cli-offset-behind-a-minus'])
+                        as_operand = True
+                if not as_operand:
+                    lines.append(f'w6o [sp + {t}]')
+                    it = dict(it, buckets=list(it.get('buckets', ())) + ['channel:cli-offset-behind-a-plus'])
+                    as_operand = True
             else:
                 lines.append(f'w64 {t}' if as_operand else f'.8byte {t}')
             it = dict(it, operand=as_operand)
